@@ -64,7 +64,10 @@ func (t Tran) Encode() []byte {
 		be32(len(body)), be32(len(body)), body)
 }
 
-func (t Tran) Get(id int) ([]byte, bool) {
+func (t *Tran) Get(id int) ([]byte, bool) {
+	if t == nil {
+		return nil, false
+	}
 	for _, f := range t.Fields {
 		if f.ID == id {
 			return f.Data, true
@@ -73,8 +76,11 @@ func (t Tran) Get(id int) ([]byte, bool) {
 	return nil, false
 }
 
-func (t Tran) GetAll(id int) [][]byte {
+func (t *Tran) GetAll(id int) [][]byte {
 	var out [][]byte
+	if t == nil {
+		return nil
+	}
 	for _, f := range t.Fields {
 		if f.ID == id {
 			out = append(out, f.Data)
